@@ -63,7 +63,7 @@ def CcfbBlock.dec (b : Bytes) : Out CcfbBlock :=
         let ms ← decMetrics num b reportsOffset
         pure { media := media, beginSeq := bs, metrics := ms }
 
-def blocksLen (bs : List CcfbBlock) : Nat := (bs.map CcfbBlock.len).foldl (· + ·) 0
+def blocksLen (bs : List CcfbBlock) : Nat := (bs.map CcfbBlock.len).sum
 
 def Ccfb.marshalSize (c : Ccfb) : Nat := reportBlockOffset + blocksLen c.blocks + reportTimestampLength
 
